@@ -202,7 +202,37 @@ def edges_clause(cl, rng, n, replay):
             return
 
 
+def tolerance_clause(cl, rng, n, replay):
+    """criterion iv at its 5 % tolerance: a geometric grid whose neighbouring samples are 4.9 % .. 5.2 % apart, the mean curve peaking on one sample and the mean x exp(+std) curve
+    on a neighbour - ratios 0.951 / 1.0515 (inside / outside the guideline's interval, measured against f0) are decided as the guideline decides them"""
+    import hvsrpy.sesame as ses
+    for j in range(n):
+        step = [1.0515, 1.0490, 1.0505, 1.0520][j % 4]
+        f0 = float(rng.choice([0.7, 1.3, 2.6, 5.0]))
+        f = f0 * step ** np.arange(-40, 41)
+        p = 40
+        mc = 1 + 3 * np.exp(-(np.log(f / f0) / 0.3) ** 2)
+        mc[p] += 0.02
+        side = [-1, 1][(j // 4) % 2]
+        # the standard-deviation curve tilts the +std curve towards one neighbour and the -std curve towards the other
+        # the standard deviation is larger on one neighbour of the peak only: the +std curve peaks on that neighbour (0.03 is more than the mean curve falls to it), the
+        # -std curve stays on the peak sample - so exactly one of the two frequencies of criterion iv sits next to the tolerance
+        sc = 0.1 + 0.03 * (np.arange(len(f)) == p + side)
+        want = spec_clarity(f, mc, sc, 0.01 * f0, (None, None))
+        got = _silent(ses.clarity, f, mc, sc, 0.01 * f0, verbose=0)
+        cl.case((j, step, f0, side), nontrivial=True)
+        if want is None or want[1]:
+            cl.skipped += 1
+            continue
+        if not np.array_equal(got, want[0]):
+            cl.fail("hvsrpy.sesame.clarity", f"grid step {step}: verdicts {got.tolist()} differ from the guideline {want[0].tolist()} (criterion iv measures the 5 % against the peak "
+                    "frequency of the mean curve)", signature="sesame:iv-tolerance", step=step, f0=f0)
+            return
+
+
 CLAUSES = [
+    ("cross-check:criterion iv at its 5 % tolerance (neighbouring samples 4.9 % .. 5.2 % apart)", "cross-check", "geometric grids of 81 samples, 4 steps x 2 tilts x 4 peak frequencies",
+     "hvsrpy.sesame.clarity", (16, 160), tolerance_clause),
     ("cross-check:reliability / clarity verdicts == SESAME (2004) criteria on the trimmed mean-curve peak (all verbosity levels, monotonicity)", "cross-check",
      "3 grid families (incl. exact f0/4, 4 f0 and band-edge samples), bumps with secondary peaks / high edges, 6 search ranges, 3 verbosity levels",
      "hvsrpy.sesame.clarity", (150, 3000), main_clause),
